@@ -751,7 +751,11 @@ def replay(ctx, obj):
     if case['method'] == 'list' and case['backend'] == 'local':
         list_fault_probe(rep, ctx.scratch, f)
     else:
-        check_cases([case], rep, ctx.scratch, f)
+        check_cases([case], rep, ctx.scratch, f, with_model=False)
+        if not case.get('nested') and not case.get('persistent'):
+            rep2 = Report(rule=RULE)
+            check_cases([case], rep2, ctx.scratch, f)
+            rep.disagreements += [d for d in rep2.disagreements if 'could not be evaluated' not in d['what']]
     for v in rep.violations:
         print('VIOLATION-REPRODUCED', v['what'])
     for d in rep.disagreements:
